@@ -93,7 +93,7 @@ func (n *Node) hasCtr() bool {
 	return false
 }
 
-func nB(b []byte) *Node     { return &Node{B: hex.EncodeToString(b)} }
+func nB(b []byte) *Node       { return &Node{B: hex.EncodeToString(b)} }
 func nL(items ...*Node) *Node { return &Node{L: items, IsList: true} }
 func nU(v uint64) *Node {
 	if v == 0 {
@@ -329,16 +329,16 @@ type Obj struct {
 
 // Case is one executed input.
 type Case struct {
-	S     string      `json:"s"`    // surface a|b|c|d
-	Idx   int         `json:"idx"`  // index in the surface's list (fixed list: negative numbers are not used; Fixed tells)
+	S     string      `json:"s"`   // surface a|b|c|d
+	Idx   int         `json:"idx"` // index in the surface's list (fixed list: negative numbers are not used; Fixed tells)
 	Fixed bool        `json:"fixed,omitempty"`
 	Kind  string      `json:"kind"` // structural class (fingerprint)
 	Wire  *WireScript `json:"wire,omitempty"`
 	// c
-	HS   *Payload `json:"hs,omitempty"` // reply to the protocol handshake on a fresh connection (nil = honest reply)
-	HSCode uint32 `json:"hscode,omitempty"`
-	Msgs []Msg    `json:"msgs,omitempty"`
-	Slow bool     `json:"slow,omitempty"` // attacker does not read replies while sending
+	HS     *Payload `json:"hs,omitempty"` // reply to the protocol handshake on a fresh connection (nil = honest reply)
+	HSCode uint32   `json:"hscode,omitempty"`
+	Msgs   []Msg    `json:"msgs,omitempty"`
+	Slow   bool     `json:"slow,omitempty"` // attacker does not read replies while sending
 	// d
 	Obj  *Obj   `json:"obj,omitempty"`
 	Lazy string `json:"lazy,omitempty"` // fixed list only: build Obj from the fixture at execution time (the logged case carries the result)
